@@ -186,3 +186,42 @@ Proof.
   intro H. inversion H. subst e.
   destruct (compile_err_kind current p ESql E) as [K | [K | K]]; congruence.
 Qed.
+
+(* with De Morgan negation a well-formed predicate can only fail through a merge that needs three tables *)
+Lemma invert_err_topq vr : fix_not_junction vr = true ->
+  forall x e, topqb x = true -> invert vr x = Err e -> e = EAssertion.
+Proof.
+  intro NJ.
+  induction x as [| | | |n inner inv IHq|negs a|negs k v|negs a|inv k v|k ms HF] using qobj_ind';
+    intros e T H; try (simpl in T; congruence); try (simpl in H; congruence).
+  - simpl in H. destruct (fix_not_null vr); congruence.
+  - rewrite invert_QJ, NJ in H.
+    destruct (map_result (invert vr) ms) as [ms'|e'] eqn:EM; simpl in H.
+    + unfold junction in H. destruct (mk_junction_err _ _ _ _ _ H) as [E | E]; [exact E|].
+      exfalso. subst e. revert H. apply mk_junction_no_fuel. lia.
+    + inversion H. subst e'. apply map_result_err in EM. destruct EM as [x [Hx Ex]].
+      rewrite Forall_forall in HF. simpl in T. rewrite forallb_forall in T.
+      exact (HF x Hx e (T x Hx) Ex).
+Qed.
+
+Theorem compile_err_demorgan vr : fix_not_junction vr = true -> forall p e,
+  wf_pred p = true -> compile vr p = Err e -> e = EAssertion.
+Proof.
+  intro NJ. induction p as [path c k|a|k v|a IHa b IHb|a IHa b IHb|a IHa]; intros e W H; simpl in H.
+  - exfalso. simpl in W. destruct path as [|n r]; [simpl in W; congruence|]. simpl in W.
+    destruct k; simpl in H; try congruence; destruct (cmp_eqb c CEq); simpl in W, H; congruence.
+  - congruence.
+  - destruct (fix_not_info vr); congruence.
+  - simpl in W. apply andb_true_iff in W. destruct W as [Wa Wb].
+    destruct (compile vr a) as [x|e1] eqn:Ea; simpl in H; [|inversion H; subst; apply IHa; auto].
+    destruct (compile vr b) as [y|e2] eqn:Eb; simpl in H; [|inversion H; subst; apply IHb; auto].
+    unfold junction in H. destruct (mk_junction_err _ _ _ _ _ H) as [E | E]; [exact E|].
+    exfalso. subst e. revert H. apply mk_junction_no_fuel. lia.
+  - simpl in W. apply andb_true_iff in W. destruct W as [Wa Wb].
+    destruct (compile vr a) as [x|e1] eqn:Ea; simpl in H; [|inversion H; subst; apply IHa; auto].
+    destruct (compile vr b) as [y|e2] eqn:Eb; simpl in H; [|inversion H; subst; apply IHb; auto].
+    unfold junction in H. destruct (mk_junction_err _ _ _ _ _ H) as [E | E]; [exact E|].
+    exfalso. subst e. revert H. apply mk_junction_no_fuel. lia.
+  - simpl in W. destruct (compile vr a) as [x|e1] eqn:Ea; simpl in H; [|inversion H; subst; apply IHa; auto].
+    apply (invert_err_topq vr NJ x e (compile_topq vr a x Ea) H).
+Qed.
